@@ -55,10 +55,10 @@ type sessObs struct {
 const ndecl = 7
 
 func items(p *gocore.Prog) []string {
-	pre := gocore.Prelude
+	pre := p.PreludeSrc()
 	// the prelude is cut into its declarations
 	type0 := gocore.TypeDecl
-	vars := "var g0, g1 = 1, 2\nvar t = T{3, 4}\nvar arr = [2]int{5, 6}\n"
+	vars := p.VarDecls()
 	helpers := pre[strings.Index(pre, "func helper()"):]
 	fd := p.FuncDecls()
 	fi := strings.Index(fd, "func f(")
@@ -75,6 +75,13 @@ func globalsOf(i *interp.Interpreter) map[string]string {
 		case "g0", "g1", "t", "arr":
 			if v.IsValid() {
 				out[k] = fmt.Sprint(v)
+			}
+		case "ga", "gaa": // the array of the model, held by a struct or an array variable (gocore.ArrName)
+			if v.IsValid() {
+				out["arr"] = strings.TrimSuffix(strings.TrimPrefix(strings.TrimPrefix(fmt.Sprint(v), "{"), "[["), "}")
+				if k == "gaa" {
+					out["arr"] = "[" + strings.TrimSuffix(out["arr"], "]]") + "]"
+				}
 			}
 		}
 	}
@@ -237,8 +244,15 @@ func splitFiles(j sessJob) map[string]string {
 	mainBody.WriteString("}\n")
 	bodies[len(j.Cut)%3] += mainBody.String()
 	head := "package main\n\nimport \"fmt\"\n\nvar _ = fmt.Sprint\n\n"
+	an := "arr" // gocore.ArrName of the program, read off its variable declarations (item 3)
+	switch {
+	case strings.Contains(j.Items[2], "var ga ="):
+		an = "ga.arr"
+	case strings.Contains(j.Items[2], "var gaa ="):
+		an = "gaa[0]"
+	}
 	files := map[string]string{
-		"a.go": head + "var dep0 = g0 + 10*g1 + 100*arr[1] + 1000*t.b\n\nfunc init() { fmt.Println(\"dep\", dep0) }\n",
+		"a.go": head + "var dep0 = g0 + 10*g1 + 100*" + an + "[1] + 1000*t.b\n\nfunc init() { fmt.Println(\"dep\", dep0) }\n",
 	}
 	for k, b := range bodies {
 		if b != "" {
